@@ -305,8 +305,8 @@ class C19(Property):
                 c = {'fn': 'density_from_concentration', 'mode': 'plain', 'conc': lu(10, 18000), 'T': g6(rng.uniform(273.15, 323.15))}
                 if rng.random() < 0.4:
                     c['molar_mass'] = lu(0.05, 0.2)
-                    c['atol'] = lu(1e-8, 5)
-                    c['maxiter'] = rng.choice([0, 1, 2, 3, 5, 10, 20])
+                    c['atol'] = rng.choice([lu(1e-8, 5), lu(1e-8, 5), lu(1e-8, 5), 'inf', 'nan'])
+                    c['maxiter'] = rng.choice([-1, 0, 1, 2, 3, 5, 10, 20, 40])
                 add(c)
                 if rng.random() < 0.3:
                     add({'fn': 'density_from_concentration', 'mode': 'oracle_units', 'conc': c['conc'], 'T': c['T'],
@@ -540,7 +540,7 @@ class C19(Property):
             return mc
         if fn == 'density_from_concentration':
             if 'maxiter' in c:
-                mc.update(op='density_from_concentration_with', a=[f2b(c['conc']), f2b(c['T']), f2b(c['molar_mass']), f2b(c['atol'])],
+                mc.update(op='density_from_concentration_with', a=[f2b(c['conc']), f2b(c['T']), f2b(c['molar_mass']), f2b(self._atol(c))],
                           maxiter=c['maxiter'])
             else:
                 mc.update(op='density_from_concentration', a=[f2b(c['conc']), f2b(c['T'])])
@@ -652,7 +652,7 @@ class C19(Property):
             from chempy.properties.sulfuric_acid_density_myhre_1998 import density_from_concentration
             kw = {}
             if 'maxiter' in c:
-                kw = dict(molar_mass=c['molar_mass'], atol=c['atol'], maxiter=c['maxiter'])
+                kw = dict(molar_mass=c['molar_mass'], atol=self._atol(c), maxiter=c['maxiter'])
             r = self._run(lambda: density_from_concentration(c['conc'], c['T'], **kw))
             return ('exc', r[1]) if r[0] == 'exc' else ('ok', float(r[1]))
         if mode == 'rat':
@@ -809,8 +809,9 @@ class C19(Property):
             return self._oracle_lg(c)
         if fn == 'density_from_concentration':
             return self._oracle_dfc(c)
-        if mode == 'rat':
-            return None
+        if mode == 'rat':       # the exact-rational cases are plain-number calls: same claims as mode plain
+            c = dict(c, mode='plain', constants=False)
+            mode = 'plain'
         if self.is_malformed(c):
             thunk, _, _ = self._args(c)
             r = self._run(thunk)
@@ -872,8 +873,35 @@ class C19(Property):
             return '%s: warnings with units %r, plain %r' % (fn, r[2], p[2])
         return None
 
+    @staticmethod
+    def _published(fn, c):
+        """the published formula with the published coefficients (Tanaka 2001 eq. 1; Korson 1969 eq. 5; Holz 2000 eq. 1; Bradley & Pitzer 1979
+        Table I), written out here independently of the source; None where the formula leaves the reals"""
+        T = c['T']
+        t = T - 273.15
+        try:
+            if fn == 'water_density':
+                return 999.974950 * (1 - (t - 3.983035) ** 2 * (t + 301.797) / (522528.9 * (t + 69.34881)))
+            if fn == 'water_viscosity':
+                return 1.0020 * 10 ** ((1.1709 * (20 - t) - 0.001827 * (t - 20) ** 2) / (t + 89.93))
+            if fn == 'water_diffusivity':
+                e0, e1 = c.get('err') or (0.0, 0.0)
+                base = T / (215.05 + e1 * 1.2) - 1
+                return None if base <= 0 else (1.635e-8 + e0 * 2.242e-11) * base ** 2.063
+            if fn == 'water_permittivity':
+                U = (3.4279e2, -5.0866e-3, 9.4690e-7, -2.0525, 3.1159e3, -1.8289e2, -8.0325e3, 4.2142e6, 2.1417)
+                B = U[6] + U[7] / T + U[8] * T
+                arg = (B + c['P']) / (B + 1000.0)
+                return None if arg <= 0 else U[0] * math.exp(U[1] * T + U[2] * T * T) + (U[3] + U[4] / (U[5] + T)) * math.log(arg)
+        except (ZeroDivisionError, OverflowError, ValueError):
+            return None
+        return None
+
     def _oracle_extra(self, c, v):
         fn = c['fn']
+        ref = self._published(fn, c)
+        if ref is not None and not close(v, ref, 1e-11, 1e-300):
+            return '%s(%s) = %r, published formula %r' % (fn, ', '.join('%s=%r' % (k, c[k]) for k in ('T', 'P', 'err') if c.get(k) is not None), v, ref)
         if fn == 'henry_call':
             from chempy.henry import Henry
             h = Henry(c['Hcp'], c['Tderiv'], c['Tref'])
@@ -923,11 +951,29 @@ class C19(Property):
                 return 'lg_solubility_ratio(%s, %r, units=%s) = %r, plain mode %r' % ({k: str(v) for k, v in elu.items()}, c['gas'], c['usys'], got, float(r[1]))
         return None
 
+    @staticmethod
+    def _atol(c):
+        a = c.get('atol', 1e-3)
+        return float(a) if isinstance(a, str) else a
+
+    def _ref_dfc(self, conc, T, M, atol, maxiter):
+        """the documented algorithm written out independently: fixed-point iteration rho <- rho_cb(conc*M/rho) from 1100 kg/m3 until
+        |delta| <= atol; NoConvergence when more than `maxiter` passes would be needed -> ('ok', rho) | ('NoConvergence',)"""
+        from chempy.properties.sulfuric_acid_density_myhre_1998 import sulfuric_acid_density
+        rho, delta, n = 1100.0, float('inf'), 0
+        while atol < abs(delta):
+            n += 1
+            new = float(sulfuric_acid_density(conc * M / rho, T, warn=False))
+            delta, rho = new - rho, new
+            if n > maxiter:
+                return ('NoConvergence',)
+        return ('ok', rho)
+
     def _oracle_dfc(self, c):
         from chempy.properties.sulfuric_acid_density_myhre_1998 import density_from_concentration, sulfuric_acid_density
         M = c.get('molar_mass', (1.00794 * 2 + 32.066 + 4 * 15.9994) * 1e-3)
-        atol = c.get('atol', 1e-3)
-        kw = dict(molar_mass=c['molar_mass'], atol=c['atol'], maxiter=c['maxiter']) if 'maxiter' in c else {}
+        atol = self._atol(c)
+        kw = dict(molar_mass=c['molar_mass'], atol=atol, maxiter=c['maxiter']) if 'maxiter' in c else {}
         r = self._run(lambda: density_from_concentration(c['conc'], c['T'], **kw))
         if c['mode'] == 'oracle_units':
             U = self.U()
@@ -945,8 +991,19 @@ class C19(Property):
                 if not close(got, float(r[1]), 1e-9):
                     return 'density_from_concentration with units %r kg/m3, plain %r' % (got, float(r[1]))
             return None
+        # claim for EVERY input: the function returns exactly when (and what) the documented iteration returns within maxiter passes
+        ref = self._ref_dfc(c['conc'], c['T'], M, atol, c.get('maxiter', 10))
         if r[0] == 'exc':
-            return None if r[1] == 'NoConvergence' else 'density_from_concentration raised %s' % r[1]
+            if r[1] != 'NoConvergence':
+                return 'density_from_concentration raised %s' % r[1]
+            return None if ref[0] == 'NoConvergence' else ('density_from_concentration(%r, %r, %r) raised NoConvergence, the documented iteration converges to %r '
+                                                           'within maxiter passes' % (c['conc'], c['T'], kw, ref[1]))
+        if ref[0] != 'ok':
+            return 'density_from_concentration(%r, %r, %r) = %r but the documented iteration needs more than maxiter passes' % (c['conc'], c['T'], kw, float(r[1]))
+        if not close(float(r[1]), ref[1], 1e-9):
+            return 'density_from_concentration(%r, %r, %r) = %r, documented iteration %r' % (c['conc'], c['T'], kw, float(r[1]), ref[1])
+        if math.isinf(atol) or math.isnan(atol):
+            return None
         rho = float(r[1])
         # inverse of "concentration from density": rho is (within atol-scale) the density at mass fraction conc*M/rho
         w = c['conc'] * M / rho
